@@ -52,8 +52,69 @@ def run_case(c):
     return None
 
 
+def run_pw_case(c):
+    """Run-time contract of make_parallel_worlds_graph (bounded): the result is exactly the parallel-worlds graph of the event's
+    worlds -- one copy of every node per world plus the factual copy; U_w -> V_w for every U -> V unless V is fixed in w; a
+    bidirected edge between two distinct copies exactly when they share exogenous noise: copies of the same variable in
+    different worlds, or copies (in any two worlds, the same one included) of two variables joined by a bidirected edge --
+    a copy fixed by its own world's intervention has no noise and no such edge."""
+    dsl = concrete.y0mod("y0.dsl")
+    cg = concrete.y0mod("y0.algorithm.identify.cg")
+    V = dsl.Variable
+    vs, d, u = c["nodes"], c["directed"], c["undirected"]
+    g = oracles.build(vs, d, u, random.Random(c["seed"]))
+    worlds = {frozenset(dsl.Intervention(name=n, star=bool(st)) for n, st in w) for w in c["worlds"]}
+    try:
+        pw = cg.make_parallel_worlds_graph(g, worlds)
+    except Exception as e:
+        return f"make_parallel_worlds_graph raised {type(e).__name__}: {e}"
+    W = [None] + sorted(worlds, key=lambda w: sorted(map(str, w)))
+
+    def copy(v, w):
+        return V(v) if w is None else V(v).intervene(w)
+
+    def fixed(v, w):
+        return w is not None and any(i.name == v for i in w)
+    want_nodes = {copy(v, w) for v in vs for w in W}
+    want_d = {(copy(a, w), copy(b, w)) for a, b in d for w in W if not fixed(b, w)}
+    und = {frozenset(e) for e in u}
+    want_u = set()
+    for v in vs:
+        for x in vs:
+            for w1 in W:
+                for w2 in W:
+                    if (v, w1) == (x, w2) or fixed(v, w1) or fixed(x, w2):
+                        continue
+                    if (v == x and w1 != w2) or frozenset((v, x)) in und:
+                        want_u.add(frozenset((copy(v, w1), copy(x, w2))))
+    got_u = {frozenset(e) for e in pw.undirected.edges()}
+    if set(pw.nodes()) != want_nodes:
+        return f"nodes differ: missing {sorted(map(str, want_nodes - set(pw.nodes())))}, extra {sorted(map(str, set(pw.nodes()) - want_nodes))}"
+    if set(pw.directed.edges()) != want_d:
+        return (f"directed edges differ: missing {sorted(map(str, want_d - set(pw.directed.edges())))}, "
+                f"extra {sorted(map(str, set(pw.directed.edges()) - want_d))}")
+    if got_u != want_u:
+        return (f"bidirected edges differ: missing {sorted(sorted(map(str, e)) for e in want_u - got_u)}, "
+                f"extra {sorted(sorted(map(str, e)) for e in got_u - want_u)}")
+    return None
+
+
+def gen_pw_cases(tier, rng):
+    for vs, d, u in cfcommon.small_graphs(rng, tier, 300 if tier == "quick" else 4000):
+        for _ in range(2):
+            nw = rng.choice([1, 2, 3, 3, 4])
+            worlds = set()
+            for _ in range(nw):
+                k = rng.randint(1, min(2, len(vs)))
+                worlds.add(tuple(sorted((n, rng.random() < 0.5) for n in rng.sample(vs, k))))
+            yield {"pw": True, "nodes": vs, "directed": d, "undirected": u, "worlds": [list(map(list, w)) for w in sorted(worlds)],
+                   "seed": rng.randrange(1 << 30)}
+
+
 def _eval(c):
     try:
+        if c.get("pw"):
+            return c, run_pw_case(c), None
         return c, run_case(c), None
     except Exception as e:
         return c, None, f"{type(e).__name__}: {e}"
@@ -63,8 +124,24 @@ def extra(rep, repo, registry, known_open):
     t0 = time.time()
     rng = random.Random(repr((rep.seed, "C18")))
     cases = list(gen_cases(rep.tier, rng))
+    pw_cases = list(gen_pw_cases(rep.tier, random.Random(repr((rep.seed, "C18-pw")))))
     concrete.y0mod("y0.dsl")
     fails, errs = [], []
+    pfails = []
+    with mp.get_context("fork").Pool(16) as pool:
+        for c, why, err in pool.imap_unordered(_eval, pw_cases, chunksize=16):
+            if err:
+                errs.append(err)
+            elif why:
+                pfails.append((c, why))
+    rep.extra_parts.append({"name": "parallel-worlds-graph-runtime-contract", "kind": "bounded", "decides": True, "evaluations": len(pw_cases),
+                            "scope": "make_parallel_worlds_graph against its definition (nodes, directed and bidirected edges exactly) on every ADMG on 2-3 "
+                                     "nodes and sampled 3-4 node ADMGs with 1-4 worlds of 1-2 interventions each", "failures": len(pfails)})
+    if pfails:
+        c, why = min(pfails, key=lambda f: (len(f[0]["nodes"]), len(f[0]["worlds"])))
+        oid = "y0.algorithm.identify.cg.make_parallel_worlds_graph/bounded.contract"
+        path = pipeline.write_replay("C18", "bounded.pw", {"property": "C18", "obligation": oid, "case": c, "why": why})
+        rep.violations.append((oid, path, ""))
     with mp.get_context("fork").Pool(16) as pool:
         for c, why, err in pool.imap_unordered(_eval, cases, chunksize=16):
             if err:
@@ -90,7 +167,7 @@ def extra(rep, repo, registry, known_open):
 
 
 def replay(payload, path):
-    why = run_case(payload["case"])
+    why = run_pw_case(payload["case"]) if payload["case"].get("pw") else run_case(payload["case"])
     print(json.dumps({"case": payload["case"], "now": why}, indent=1))
     if why:
         print(f"VIOLATION property=C18 replay={path}")
